@@ -63,6 +63,10 @@ def main():
             d['dim'] = int(g.dim) if np.isscalar(g.dim) else [int(x) for x in g.dim]
         except Exception:  # noqa
             d['dim'] = None
+        try:
+            d['output_shape'] = [int(x) for x in g.output_shape()]
+        except Exception as e:  # noqa
+            d['output_shape'] = 'err:' + errclass(e)
         if hasattr(g, 'kvs'):
             d['kvs'] = [{'p': int(kv.p), 'kv': H(kv.kv)} for kv in g.kvs]
         if hasattr(g, 'coeffs'):
@@ -162,6 +166,26 @@ def main():
             b = g.boundary(op['bd'])
             d['boundary_cls'] = type(b).__name__
             d['boundary_fixed'] = float(b.fixed_coord).hex() if hasattr(b, 'fixed_coord') else None
+            return d
+        elif name == 'restricted_boundary':
+            # support restricted along a subset of the axes, then every requested side
+            g = f.copy()
+            g.support = tuple(tuple(F(s_)) for s_ in op['arg'])
+            d = {'cls': type(g).__name__, 'support': [[float(s_[0]).hex(), float(s_[1]).hex()] for s_ in g.support], 'sides': [],
+                 'output_shape': [int(x) for x in g.output_shape()]}
+            for sd in op['bds']:
+                spec = sd['bd'] if isinstance(sd['bd'], str) else tuple(sd['bd'])
+                try:
+                    b = g.boundary(spec)
+                    e = {'status': 'Ok', 'cls': type(b).__name__, 'sdim': int(b.sdim),
+                         'support': [[float(s_[0]).hex(), float(s_[1]).hex()] for s_ in b.support],
+                         'fixed': float(b.fixed_coord).hex() if hasattr(b, 'fixed_coord') else None}
+                    ga = [np.array(F(ax)) for ax in sd['grid']]
+                    e['grid_eval'] = guarded(lambda: b.grid_eval(ga))
+                    e['bounding_box'] = guarded(lambda: np.array(b.bounding_box())) if sd.get('bbox') else None
+                except Exception as ex:  # noqa
+                    e = {'status': errclass(ex), 'msg': str(ex)[:160]}
+                d['sides'].append(e)
             return d
         elif name == 'cylinderize':
             g = f.cylinderize(float.fromhex(op['z0']), float.fromhex(op['z1']), support=tuple(F(op['support'])))
